@@ -2966,6 +2966,22 @@ where
         let mut stats = InsertionStatistics::default();
         let original_coords = *vertex.point().coords();
         let original_uuid = vertex.uuid();
+
+        // Refuse non-finite coordinates up front. `Vertex::new_with_uuid` / `Point::new` bypass the
+        // `vertex!` validation, and during the bootstrap phase (no cells yet) nothing downstream
+        // looks at the coordinates, so a NaN/inf vertex would otherwise be stored.
+        if original_coords
+            .iter()
+            .any(|c| !num_traits::ToPrimitive::to_f64(c).is_some_and(f64::is_finite))
+        {
+            return Err(InsertionError::Construction(
+                TriangulationConstructionError::FailedToAddVertex {
+                    message: format!(
+                        "Vertex {original_uuid} has non-finite coordinates {original_coords:?}"
+                    ),
+                },
+            ));
+        }
         let mut current_vertex = vertex;
         let mut last_retryable_error: Option<InsertionError> = None;
 
